@@ -687,17 +687,89 @@ func (fc *FnCtx) specText(text string, axiomEnc bool) []string {
 		}
 		return out
 	}
-	var sigs, bodies []string
-	for _, r := range rs {
-		if r.body == "" {
-			out = append(out, fmt.Sprintf("(declare-fun %s (%s) %s)", specSym(r.name), r.sig, r.ret))
-			continue
-		}
-		sigs = append(sigs, fmt.Sprintf("(%s (%s) %s)", specSym(r.name), r.params, r.ret))
-		bodies = append(bodies, r.body)
+	// strongly connected components in dependency order: non-recursive functions become macros
+	// (define-fun), recursive groups become define-funs-rec
+	idx := map[string]int{}
+	for i, r := range rs {
+		idx[specSym(r.name)] = i
 	}
-	if len(sigs) > 0 {
-		out = append(out, fmt.Sprintf("(define-funs-rec (%s) (%s))", strings.Join(sigs, " "), strings.Join(bodies, " ")))
+	n := len(rs)
+	reach := make([][]bool, n)
+	for i := range reach {
+		reach[i] = make([]bool, n)
+		for _, d := range rs[i].deps {
+			if j, ok := idx[d]; ok {
+				reach[i][j] = true
+			}
+		}
+	}
+	for k := 0; k < n; k++ {
+		for i := 0; i < n; i++ {
+			if reach[i][k] {
+				for j := 0; j < n; j++ {
+					if reach[k][j] {
+						reach[i][j] = true
+					}
+				}
+			}
+		}
+	}
+	emitted := make([]bool, n)
+	for done := 0; done < n; {
+		progress := false
+		for i := 0; i < n; i++ {
+			if emitted[i] {
+				continue
+			}
+			// component of i
+			comp := []int{i}
+			for j := 0; j < n; j++ {
+				if j != i && reach[i][j] && reach[j][i] {
+					comp = append(comp, j)
+				}
+			}
+			inComp := map[int]bool{}
+			for _, c := range comp {
+				inComp[c] = true
+			}
+			ready := true
+			for _, c := range comp {
+				for j := 0; j < n; j++ {
+					if reach[c][j] && !inComp[j] && !emitted[j] {
+						ready = false
+					}
+				}
+			}
+			if !ready {
+				continue
+			}
+			progress = true
+			if len(comp) == 1 && rs[i].body == "" {
+				out = append(out, fmt.Sprintf("(declare-fun %s (%s) %s)", specSym(rs[i].name), rs[i].sig, rs[i].ret))
+			} else if len(comp) == 1 && !reach[i][i] {
+				out = append(out, fmt.Sprintf("(define-fun %s (%s) %s %s)", specSym(rs[i].name), rs[i].params, rs[i].ret, rs[i].body))
+			} else {
+				var sigs, bodies []string
+				for _, c := range comp {
+					if rs[c].body == "" {
+						out = append(out, fmt.Sprintf("(declare-fun %s (%s) %s)", specSym(rs[c].name), rs[c].sig, rs[c].ret))
+						continue
+					}
+					sigs = append(sigs, fmt.Sprintf("(%s (%s) %s)", specSym(rs[c].name), rs[c].params, rs[c].ret))
+					bodies = append(bodies, rs[c].body)
+				}
+				if len(sigs) > 0 {
+					out = append(out, fmt.Sprintf("(define-funs-rec (%s) (%s))", strings.Join(sigs, " "), strings.Join(bodies, " ")))
+				}
+			}
+			for _, c := range comp {
+				emitted[c] = true
+				done++
+			}
+		}
+		if !progress {
+			break
+		}
 	}
 	return out
 }
